@@ -1258,6 +1258,9 @@ def expandTableFile(Eups, ofd, ifd, productList, versionRegexp=None, force=False
 
         original = match.group(0)
 
+        if cmd.startswith("unsetup"):   # takes a product away: there is no version to record
+            return original
+
         if args and args[0] == "eups":  # don't expand eups version
             return original
 
@@ -1382,7 +1385,7 @@ def expandTableFile(Eups, ofd, ifd, productList, versionRegexp=None, force=False
         line = re.sub(r"\s*#.*$", "", line) # strip comments running to the end of the line
 
         # Attempt substitutions
-        rex = r'(setupRequired|setupOptional)\("?([^"]*)"?\)'
+        rex = r'((?:un)?setup(?:Required|Optional))\("?([^"]*)"?\)'
 
         line = re.sub(rex, subSetup, line)
 
@@ -1394,6 +1397,8 @@ def expandTableFile(Eups, ofd, ifd, productList, versionRegexp=None, force=False
                 lastSetupBlock = len(setupBlocks) - 1
 
             args = mat.group(2)
+            if mat.group(1).startswith("unsetup"):
+                args = None             # an unsetup line names no product to set up
             if args:
                 cmd = args.split(" ")[0]
                 if cmd == "eups":
